@@ -11,6 +11,7 @@ import (
 	"net/http"
 	"os"
 	"path/filepath"
+	"reflect"
 	"strconv"
 	"strings"
 	"sync"
@@ -63,6 +64,7 @@ func atClock(now int64, f func()) (panicMsg string) {
 // runCommand executes a command at the given wall clock.
 func runCommand(now int64, c cmd.Command) (err error, panicMsg string) {
 	wd, _ := os.Getwd()
+	prefillTextOut(c)
 	c = throughFlags(c)
 	panicMsg = atClock(now, func() { err = c.Execute() })
 	if wd != "" {
@@ -333,7 +335,54 @@ func parseVal(s string) (float64, bool) {
 
 func readText(path string) string {
 	b, _ := os.ReadFile(path)
+	// a text-out file that existed before the run (see prefillTextOut): the command either appends to it or
+	// replaces it; what it printed is then what follows the old content / the whole file. A command that
+	// overwrites the old content in place leaves part of it behind - those lines stay in what is parsed.
+	staleMu.Lock()
+	old, ok := staleText[path]
+	staleMu.Unlock()
+	if ok && strings.HasPrefix(string(b), old) {
+		return string(b[len(old):])
+	}
 	return string(b)
+}
+
+var (
+	staleMu   sync.Mutex
+	staleText = map[string]string{}
+)
+
+// prefillTextOut: for a fifth of the cases (by the case's salt) the file named by a command's TextOut option
+// already exists, holding realistic records from an "earlier run" (longer than most outputs).
+func prefillTextOut(c cmd.Command) {
+	v := reflect.ValueOf(c)
+	if v.Kind() != reflect.Ptr || v.Elem().Kind() != reflect.Struct {
+		return
+	}
+	f := v.Elem().FieldByName("TextOut")
+	if !f.IsValid() || f.Kind() != reflect.String {
+		return
+	}
+	p := f.String()
+	if p == "" || p == "-" || caseSalt()%5 != 2 {
+		return
+	}
+	if _, err := os.Stat(p); err == nil {
+		return // (a file the check itself prepared, or an earlier run of the same case: left alone)
+	}
+	if st, err := os.Stat(filepath.Dir(p)); err != nil || !st.IsDir() {
+		return // (fault cases: unopenable destinations stay as the check made them)
+	}
+	var sb strings.Builder
+	sb.WriteString("aggMethod:sum\taggMethodNum:2\tmaxRetention:9s\txFilesFactor:0.5\tarchiveCount:1\n")
+	for i := 0; i < 400; i++ {
+		fmt.Fprintf(&sb, "archive:0\tt:1970-01-01T00:%02d:%02dZ\tval:%d\n", i/60, i%60, 900000+i)
+	}
+	if os.WriteFile(p, []byte(sb.String()), 0644) == nil {
+		staleMu.Lock()
+		staleText[p] = sb.String()
+		staleMu.Unlock()
+	}
 }
 
 // ---------------------------------------------------------------------------------------------
